@@ -15,7 +15,7 @@ def decoder_part(ck, tier, lab):
     out = os.path.join(lib.scratch(), "dec-out.json")
     seqlen = 3 if tier == "quick" else 4
     rc, so, se = lib.run_lab(lab, ["c17dec", "-in", table, "-out", out, "-seqlen", str(seqlen),
-                                   "-random", "2000" if tier == "quick" else "50000", "-randomlen", "40",
+                                   "-random", "2000" if tier == "quick" else "500000", "-randomlen", "40",
                                    "-seed", str(lib.seed())], timeout=3000)
     if rc != 0:
         raise lib.Infra("lab c17dec rc=%d: %s" % (rc, se[-2000:]))
@@ -98,7 +98,7 @@ def ipp_decode_reply(body):
 
 
 def ipp_part(ck, tier, lab):
-    n = 150 if tier == "quick" else 3000
+    n = 150 if tier == "quick" else 10000
     r = lib.tlc("MC_Ipp", timeout=300, constants={"NReq": str(n)}, tlc_seed=lib.seed(), workers=4)
     lib.tlc_must_pass(r, "Ipp request generator")
     ck.add_tlc(r, "Ipp: %d requests drawn from the structural generator (5 operations, 1..2 groups, 0..7 attributes of every supported value tag with 1..3 values, documents to 64 KiB)" % n)
